@@ -214,7 +214,10 @@ class LinearPaths:
       else:
         o = segment.get("or")
     if init:
-      merged.sequence = [s]
+      if gfapy.is_placeholder(segment.sequence):
+        merged.sequence = gfapy.Placeholder()
+      else:
+        merged.sequence = [s]
       if merged_name:
         merged.name = [merged_name]
       else:
@@ -225,7 +228,8 @@ class LinearPaths:
         merged.set("or",[o])
         merged.mp = mp
     else:
-      if gfapy.is_placeholder(segment.sequence):
+      if gfapy.is_placeholder(segment.sequence) or \
+          gfapy.is_placeholder(merged.sequence):
         merged.sequence = gfapy.Placeholder()
       else:
         merged.sequence.append(s)
